@@ -720,9 +720,17 @@ def l7(facts, rep, M):
     bz = [b for b, t in ps.calls() if t.get("callee") == BLOCK0]
     n += 1
     if rep.check(len(bz) == 1, "L7", "beatree::Tree::prepare_sync", "block_until_zero", "prepare_sync no longer waits for outstanding read transactions", site=ps.span, detail="block_until_zero at bb%s" % bz):
+        targets = ("nomt::beatree::Shared::take_staged_changeset", "nomt::beatree::ops::update::update")
         for b, t in ps.calls():
             c = t.get("callee") or ""
-            if c.endswith("Shared::take_staged_changeset") or c == "nomt::beatree::ops::update::update":
+            hit = c in targets
+            if not hit and c.startswith("nomt::beatree::") and c in facts.bodies and c != BLOCK0:
+                # a helper of the tree that takes the staged changeset / runs the update itself
+                inner = facts.reach([c])
+                hit = any(x in inner for x in targets)
+                if hit:
+                    c = [x for x in targets if x in inner][0] + " via " + c.split("::")[-1]
+            if hit:
                 n += 1
                 rep.check(ps.dominates(bz[0], b) and b != bz[0], "L7", "beatree::Tree::prepare_sync", "barrier-before|%s" % c.split("::")[-1], "%s at %s is not preceded by block_until_zero: a sync could overwrite pages a live read transaction still references" % (c, t.get("ln")), site=t.get("ln"), detail="%s after block_until_zero" % c.split("::")[-1])
     rt = facts.body("nomt::beatree::Tree::read_transaction")
